@@ -373,17 +373,7 @@ impl<T: AsRef<[u8]>> PartialOrd<T> for OctetString {
             return slice.partial_cmp(other)
         }
 
-        for part in self.iter() {
-            if part.len() >= other.len() {
-                return Some(part.cmp(other))
-            }
-            match part.cmp(&other[..part.len()]) {
-                cmp::Ordering::Equal => { }
-                other => return Some(other)
-            }
-            other = &other[part.len()..]
-        }
-        Some(cmp::Ordering::Less)
+        Some(self.octets().cmp(other.iter().cloned()))
     }
 }
 
